@@ -429,7 +429,8 @@ func c11RunTrim(in c11In, res *Result) error {
 	if res.Holds && string(c11EncRows(want)) != string(o.Out) {
 		res.Holds = false
 		res.Detail = fmt.Sprintf("trimResultsToRange returned %d rows, %d are in [start,end]", len(o.Out)/(t.Rowlen+8), len(want))
-		if !guard {
+		// the known finding excuses exactly one wrong answer: every row from the first one >= Start on
+		if !guard && string(o.Out) == string(c11EncRows(d)) {
 			res.Class = "no-candidate-le-end"
 		}
 	}
@@ -668,7 +669,22 @@ func c11RunQuery(in c11In, res *Result) error {
 		res.Detail = fmt.Sprintf("range query returned %d rows; %d of the %d rows of the unrestricted query are in range",
 			len(o.Out)/rl, len(want)/rl, len(o.All)/rl)
 		if st.Var && !guard && q.Mode == 0 {
-			res.Class = "no-candidate-le-end"
+			// the known finding excuses exactly one wrong answer: every candidate from the first one >= Start on
+			var quirk []byte
+			on := false
+			for _, rc := range cand {
+				if !on && !time.Unix(rc.Sec, int64(rc.Ns)).Before(s) {
+					on = true
+				}
+				if on {
+					quirk = binary.LittleEndian.AppendUint64(quirk, uint64(rc.Sec))
+					quirk = append(quirk, rc.Pay...)
+					quirk = binary.LittleEndian.AppendUint32(quirk, uint32(rc.Ns))
+				}
+			}
+			if string(quirk) == string(o.Out) {
+				res.Class = "no-candidate-le-end"
+			}
 		}
 	}
 	rt := "fixed"
